@@ -2,5 +2,5 @@
 From OV Require Import Base.Strs Tools.ExnFlowLang Tools.ExnFlowLoops Tools.ExnFlowLoopsObl Tools.ExnFlow.
 Require Import ExtrOcamlBasic.
 
-Extraction "../ocaml/gen/flow.ml" extract_anchor report_escapes report_sites report_total report_raising report_benign
+Extraction "../ocaml/gen/flow.ml" extract_anchor report_escapes report_sites report_total report_raising report_benign report_known
   report_loops report_max_nesting consuming_calls.
